@@ -160,6 +160,12 @@ def mutate_in_place(r):
                 mutate_in_place(part)
             return
         if isinstance(r, list):
+            if r and all(isinstance(v, (int, float)) for v in r):
+                # a flat list of numbers (filter / digitisation output): normalised in place and extended by the caller
+                top = max(abs(float(v)) for v in r) or 1.0
+                r[:] = [float(v) / top - 0.25 for v in r]
+                r.append(-12345.0)
+                return
             for inner in r:
                 if isinstance(inner, list):
                     inner.append(-12345.0)
@@ -177,8 +183,12 @@ def fresh_results(res, calls):
     for api, thunk, desc in calls:
         try:
             r = thunk()
-        except Exception:  # noqa
+        except Exception as e:  # noqa
             first.append(None)
+            if not desc.startswith('(may raise)'):
+                res.failures.append({'signature': f'{res.pid}:{api}:fresh-result:first-call-raises:{desc}',
+                                     'clause': 'a valid call raised after the caller modified (in place) results returned by earlier calls: ' + repr(e)[:80],
+                                     'api': api, 'input': desc})
             continue
         first.append(copy.deepcopy(r))
         mutate_in_place(r)
@@ -278,7 +288,7 @@ def extreme_scale_stream(res, names, rng, k):
             b, _s = core.gen_history(rng, maxlen=14, closed=(rng.random() < 0.4))
             if max(abs(v) for v in b) < 2048 and len(set(b)) >= 2:
                 break
-        e = rng.choice([-1000, -700, -560, 480, 900])
+        e = rng.choice([-1000, -700, -560, 480, 900, 37, 44, 100])
         data = [math.ldexp(float(v), e) for v in b]
         for name in names:
             if not valid_for(name, b):
@@ -300,6 +310,23 @@ def extreme_scale_stream(res, names, rng, k):
                                      'clause': 'valid history (small integers times 2^%d) raised or returned points that are not its samples: %s' % (e, repr(ex)[:100]),
                                      'api': API[name], 'input': b, 'power_of_two': e})
                 continue
+            if e > 0:
+                # large magnitudes (1e11 … 1e270): every range is an integer times 2^e, rounding to 8 decimals changes nothing, so the aggregated
+                # table must be exactly the histogram of the cycle list (binning through a 64-bit integer of range * 1e8 overflows from 9.2e10 on)
+                try:
+                    agg = f(list(data), aggregate=True)
+                    agg = [] if agg == [[]] else agg
+                    got = [(float(r), float(c)) for r, c in agg]
+                except Exception as ex:  # noqa
+                    got = 'raised ' + type(ex).__name__ + ': ' + str(ex)[:80]
+                want = {}
+                for a, b2, c in seq:
+                    want[abs(float(b2) - float(a))] = want.get(abs(float(b2) - float(a)), 0.0) + float(c)
+                want = sorted(want.items())
+                if got != want:
+                    res.failures.append({'signature': f'{res.pid}:{name}:extreme-scale:table:{enc_list(b)}:{e}',
+                                         'clause': 'aggregated table of the history times 2^%d is not the histogram of its cycle list' % e,
+                                         'api': API[name], 'input': b, 'power_of_two': e, 'impl_output': {'table': got if isinstance(got, str) else got[:6], 'histogram': want[:6]}})
             reqs.append(model_line(name, b))
             meta.append((name, b, e, cs))
     for (name, b, e, cs), ans in zip(meta, core.driver_batch(reqs)):
